@@ -56,7 +56,7 @@ for phase, pre in (("wash_rinse", [["tank", 80], ["mqtt", "/settings/mode", "eco
                    ("opening_standby", [["mqtt", "/settings/mode", "eco"], ["run", 20], ["mqtt", "/settings/mode", "standby"], ["until_state", "Filtration", "opening", 30], ["run", 2]]),
                    ("closing", [["mqtt", "/settings/mode", "eco"], ["run", 20], ["mqtt", "/settings/mode", "standby"], ["run", 400], ["mqtt", "/settings/mode", "eco"], ["until_state", "Filtration", "closing", 30], ["run", 1]])):
     for cmd in ("halt", "eco", "standby"):
-        for secs in (1.5, 4):
+        for secs in (1.5,):
             add(f"racelag_seq_{phase}_{cmd}_{int(secs)}", [["temp", "pool", 28.0]] + pre + [["racelag", "Filtration", secs, "/settings/mode", cmd], ["run", 40]] + END, W if phase.startswith("wash") else OPTS)
     # the cover has arrived: the final settling delay is armed; commands queue up while Filtration is slow
     if phase in ("opening_standby", "closing"):
@@ -64,7 +64,7 @@ for phase, pre in (("wash_rinse", [["tank", 80], ["mqtt", "/settings/mode", "eco
             add(f"racelag_settle_{phase}_{seq[0][1]}", [["temp", "pool", 28.0]] + pre + [["run", 12], ["queue", seq[0][0], seq[0][1]], ["racelag", "Filtration", 2.5, seq[1][0], seq[1][1]], ["cover", 2.0], ["run", 60]] + END)
 
 # 7. comfort / heating polls with a slow Heating actor
-for secs in (1.5, 3):
+for secs in (1.5,):
     add(f"lag_comfort_poll_{int(secs)}", [["temp", "pool", 24.0], ["mqtt", "/settings/mode", "eco"], ["run", 20], ["mqtt", "/settings/mode", "standby"], ["run", 400], ["mqtt", "/settings/mode", "comfort"], ["run", 8],
         ["lag", "Heating", secs], ["run", 8], ["lag", "Heating", secs], ["run", 120]] + END)
 
